@@ -152,3 +152,28 @@ Definition owed (c : cfg) (st : state) (now : Z) (id : N) : Prop :=
     | Some (_, ft) => (c_arrive c - c_slack c < now - ft)%Z
     | None => True
     end.
+
+(* ---------- timer fairness on a trace, and "the item stays in the table until the next pass" ---------- *)
+
+(* the loop really takes a pass at this event *)
+Definition takes_pass (st : state) (ev : event) : bool :=
+  match ev with ETimer _ _ _ => timer_chan st | _ => false end.
+
+(* fairness with latency [lat], from state [st] whose last event was at [tprev]: while the timer is armed
+   no event happens later than due + lat (the runtime has delivered it by then), and once its value
+   is in the channel the very next thing the loop does is the pass, within lat *)
+Fixpoint fair_run (c : cfg) (lat : Z) (st : state) (tprev : Z) (tr : list (Z * event)) : Prop :=
+  match tr with
+  | [] => True
+  | (now, ev) :: r =>
+    (forall due, timer_due st = Some due -> (now <= due + lat)%Z) /\
+    (timer_chan st = true -> (exists i ch sc, ev = ETimer i ch sc) /\ (now <= tprev + lat)%Z) /\
+    fair_run c lat (fst (step true c st now ev)) now r
+  end.
+
+Fixpoint held_until_pass (c : cfg) (id : N) (st : state) (tr : list (Z * event)) : Prop :=
+  lru_find id (ann st) <> None /\
+  match tr with
+  | [] => True
+  | (now, ev) :: r => if takes_pass st ev then True else held_until_pass c id (fst (step true c st now ev)) r
+  end.
